@@ -164,7 +164,8 @@ Record case := {
   c_table : list dict;                             (* rows of the table read back from disk *)
   c_eq : list equery;
   c_sq : list squery;
-  c_disk : option (list key * list nat)            (* columns of the file read back, tokens written as empty *)
+  c_disk : option (list key * list nat);           (* columns of the file read back, tokens written as empty *)
+  c_split : option nat                             (* Some n: run interrupted after n deliveries and resumed *)
 }.
 
 (* model of to_csv / read_csv with the text level replaced by the identity: which cells hold a value, and the
@@ -185,7 +186,11 @@ Definition chk_csv (c : case) : bool :=
   end.
 
 Definition chk_rows (c : case) : bool :=
-  match cb_run (c_wallclock c) (c_events c) with
+  match (match c_split c with
+         | None => cb_run (c_wallclock c) (c_events c)
+         | Some n => (* interrupted after n deliveries, resumed (Tuner.load + run) *)
+             cb_run_phases (c_wallclock c) [firstn n (c_events c); skipn n (c_events c)]
+         end) with
   | None => false
   | Some s =>
       list_eqb dict_equiv (cb_results s) (c_rows c) &&
@@ -312,12 +317,15 @@ def table_rows(df):
 # --------------------------------------------------------------------------
 # independent checker of the property on implementation outputs
 # --------------------------------------------------------------------------
-def check_rows(deliveries, rows, wallclock):
-    """deliveries: list of dict(trial_id, status, result, decision, config) in delivery order"""
+def check_rows(deliveries, rows, wallclock, boundaries=()):
+    """deliveries: list of dict(trial_id, status, result, decision, config) in delivery order; boundaries: row
+    indices at which a resumed run starts (the tuner clock restarts there)"""
     if len(rows) != len(deliveries):
         return "table has %d rows for %d delivered results" % (len(rows), len(deliveries))
     last_stamp = None
     for i, (dv, row) in enumerate(zip(deliveries, rows)):
+        if i in boundaries:
+            last_stamp = None
         if not same_value(row.get("trial_id"), dv["trial_id"]):
             return "row %d: trial_id %r for a result of trial %r" % (i, row.get("trial_id"), dv["trial_id"])
         if row.get("st_decision") != dv["decision"]:
@@ -700,7 +708,7 @@ def exp_queries(er, names):
 
 
 def build_case(tb, wallclock, events, rows, history, overall, per_trial, backend_cfgs, names, mode, bq, tq, table, eqs,
-               summaries=(), disk_cols=None):
+               summaries=(), disk_cols=None, split=None):
     names_t = lst([key_term(tb, n) for n in names])
     ms = modes_term(mode)
     ev_terms = []
@@ -733,21 +741,22 @@ def build_case(tb, wallclock, events, rows, history, overall, per_trial, backend
                 for b in summaries])
     return ("{| c_wallclock := %s;\n c_events := %s;\n c_rows := %s;\n c_history := %s;\n c_tol := %s;\n"
             " c_overall := %s;\n c_trials := %s;\n c_backend := %s;\n c_bq := %s;\n c_tq := %s;\n c_table := %s;\n"
-            " c_eq := %s;\n c_sq := %s;\n c_disk := %s |}" % (
+            " c_eq := %s;\n c_sq := %s;\n c_disk := %s;\n c_split := %s |}" % (
                 blit(wallclock), lst(ev_terms), lst([dict_term(tb, r) for r in rows]), hist, q(1e-9 * mag),
                 istats_term(tb, overall),
                 lst(["(%s, %s)" % (zlit(t), istats_term(tb, s)) for t, s in per_trial.items()]),
                 lst(["(%s, %s)" % (zlit(t), cfg_term(tb, c)) for t, c in backend_cfgs.items()]),
                 bq_t, tq_t, lst([dict_term(tb, r) for r in table]), eq_t, sq_t,
                 optlit(disk_cols, lambda cols: "(%s, %s)" % (lst([key_term(tb, c) for c in cols]),
-                                                            lst([natlit(tb.tok(None))])))))
+                                                            lst([natlit(tb.tok(None))]))),
+                optlit(split, natlit)))
 
 
 SKIP_DISK = object()
 
 
 def property_checks(ctx, case, kind, deliveries, rows, wallclock, df, handed, overall, per_trial, names, mode, bq, tq,
-                    table, eqs, sched=None, summaries=(), run_error=None):
+                    table, eqs, sched=None, summaries=(), run_error=None, boundaries=()):
     """independent checker; every failure is a `property` violation with a structural signature"""
     def bad(part, why, **sig):
         s = dict(part=part, kind=kind)
@@ -759,9 +768,9 @@ def property_checks(ctx, case, kind, deliveries, rows, wallclock, df, handed, ov
     def cbt(*a, **k):
         return check_best_tuner(*a, known_trials=list(per_trial), **k)
 
-    why = check_rows(deliveries, rows, wallclock)
+    why = check_rows(deliveries, rows, wallclock, boundaries)
     if why:
-        bad("rows", why)
+        bad("rows", why, **(dict(resumed=True) if boundaries else {}))
     why = None if df is SKIP_DISK else check_disk(rows, df)
     if why:
         bad("disk", why)
@@ -1164,8 +1173,19 @@ def make_run_classes():
             self.calls.append(([int(t) for t in trial_status_dict.keys()], [(int(t), dict(r)) for t, r in new_results]))
             super().update(trial_status_dict, new_results)
 
+    class StopAfter:
+        """stop criterion that can be stored with the tuner: enough results handed to the loop, or too many calls"""
+
+        def __init__(self, max_results, max_calls):
+            self.max_results, self.max_calls, self.calls = max_results, max_calls, 0
+
+        def __call__(self, status):
+            self.calls += 1
+            return status.overall_metric_statistics.count >= self.max_results or self.calls >= self.max_calls
+
     return SimpleNamespace(ScriptedBackend=ScriptedBackend, ScriptedScheduler=ScriptedScheduler,
-                           RecordingScheduler=RecordingScheduler, Recorder=Recorder, RecordingStatus=RecordingStatus)
+                           RecordingScheduler=RecordingScheduler, Recorder=Recorder, RecordingStatus=RecordingStatus,
+                           StopAfter=StopAfter)
 
 
 def gen_run_spec(rng, idx):
@@ -1280,30 +1300,33 @@ def run_whole(ctx, spec):
         except Exception as e:  # noqa: BLE001
             run_error = raised(e)
         summaries = [parse_summary(out.getvalue())] if run_error is None else []
-        ts = tuner.tuning_status
-        rows = [dict(r) for r in store.results]
-        deliveries = [dict(d, status=st) for d, st in zip(sched.delivered, rec.statuses)]
-        n_delivered = (len(sched.delivered), len(rec.statuses))
-        overall = stats_obs(ts.overall_metric_statistics)
-        per_trial = {int(t): stats_obs(s) for t, s in ts.trial_metric_statistics.items()}
-        backend_cfgs = backend.current_configs()
-        bq, tq = [], []
-        for m in queries_for(names):
-            name, md = mode_of(names, mode, m)
-            bq.append((m, call_print_best(ts, name, md)))
-            tq.append((m, call_best_config(tuner.best_config, m)))
-        df, eqs = None, []
-        if mod is not None:
-            er = mod.load_experiment(spec["name"], download_if_not_found=False)
-            df = er.results
-            if df is not None and len(df.columns):
-                eqs = exp_queries(er, names)
-                meta_ok = er.metadata is not None and er.metadata.get("metric_names") == list(names) \
-                    and er.metadata.get("metric_mode") == mode
-            else:
-                meta_ok = True
-        else:
-            meta_ok = True
+        return collect_run(ctx, spec, tuner, sched, backend, store, rec, summaries, run_error)
+
+
+def collect_run(ctx, spec, tuner, sched, backend, store, rec, summaries, run_error, split=None):
+    """everything observable after (the last phase of) a whole run; called inside quiet()"""
+    mod = experiments_module(ctx)
+    names, mode = spec["names"], spec["mode"]
+    ts = tuner.tuning_status
+    rows = [dict(r) for r in store.results]
+    deliveries = [dict(d, status=st) for d, st in zip(sched.delivered, rec.statuses)]
+    n_delivered = (len(sched.delivered), len(rec.statuses))
+    overall = stats_obs(ts.overall_metric_statistics)
+    per_trial = {int(t): stats_obs(s) for t, s in ts.trial_metric_statistics.items()}
+    backend_cfgs = backend.current_configs()
+    bq, tq = [], []
+    for m in queries_for(names):
+        name, md = mode_of(names, mode, m)
+        bq.append((m, call_print_best(ts, name, md)))
+        tq.append((m, call_best_config(tuner.best_config, m)))
+    df, eqs, meta_ok = None, [], True
+    if mod is not None:
+        er = mod.load_experiment(spec["name"], download_if_not_found=False)
+        df = er.results
+        if df is not None and len(df.columns):
+            eqs = exp_queries(er, names)
+            meta_ok = er.metadata is not None and er.metadata.get("metric_names") == list(names) \
+                and er.metadata.get("metric_mode") == mode
     events = []
     stores = list(store.store_sizes)
     for i, (dv, row) in enumerate(zip(deliveries, rows)):
@@ -1312,7 +1335,68 @@ def run_whole(ctx, spec):
     table = table_rows(df) if df is not None else []
     return dict(deliveries=deliveries, events=events, handed=list(rec.handed), history=list(ts.calls), rows=rows, df=df,
                 overall=overall, per_trial=per_trial, backend_cfgs=backend_cfgs, bq=bq, tq=tq, table=table, eqs=eqs,
-                stores=stores, n_delivered=n_delivered, meta_ok=meta_ok, summaries=summaries, run_error=run_error)
+                stores=stores, n_delivered=n_delivered, meta_ok=meta_ok, summaries=summaries, run_error=run_error,
+                split=split)
+
+
+def run_resumed(ctx, spec):
+    """A run that is interrupted and resumed: phase 1 with save_tuner=True (small budget); the tuner is loaded back
+    from tuner.dill with Tuner.load - under the same results root, or after the experiment directory was copied to
+    another root and SYNETUNE_FOLDER points there (another machine) - and run() again with a larger budget.
+    The scheduler wrapper, the recorder and the status travel inside tuner.dill, so their logs cover both phases."""
+    from syne_tune import Tuner
+    cls = make_run_classes()
+    RecordingStore = make_recording_callback()
+    names = spec["names"]
+    root = os.environ["SYNETUNE_FOLDER"]
+    try:
+        with quiet() as out:
+            inner, limit_attr = build_scheduler(spec)
+            sched = cls.RecordingScheduler(inner)
+            backend = cls.ScriptedBackend(spec["scripts"], spec["chunks"], spec["outcomes"], limit_attr)
+            store, rec = RecordingStore(add_wallclock_time=True), cls.Recorder()
+            tuner = Tuner(trial_backend=backend, scheduler=sched,
+                          stop_criterion=cls.StopAfter(spec["max_results"], spec["max_loops"]),
+                          n_workers=spec["n_workers"], sleep_time=0, results_update_interval=spec["rui"],
+                          print_update_interval=1e9, max_failures=1000, tuner_name=spec["name"],
+                          suffix_tuner_name=False, save_tuner=True, callbacks=[store, rec])
+            tuner.tuning_status = cls.RecordingStatus(metric_names=list(names))
+            run_error = None
+            try:
+                tuner.run()
+            except Exception as e:  # noqa: BLE001
+                run_error = raised(e)
+            split = len(sched.delivered)
+            path = str(tuner.tuner_path)
+            if spec["resume"] == "moved":  # the user copies the experiment directory to the other machine
+                other = os.path.join(root, "other-root")
+                os.makedirs(other, exist_ok=True)
+                shutil.copytree(path, os.path.join(other, spec["name"]))
+                shutil.rmtree(path)
+                os.environ["SYNETUNE_FOLDER"] = other
+                path = os.path.join(other, spec["name"])
+            if run_error is None:
+                try:
+                    resumed = Tuner.load(path)
+                    resumed.stop_criterion = cls.StopAfter(spec["max_results"] + spec["more_results"],
+                                                           spec["max_loops"])
+                    n_out = len(out.getvalue())
+                    resumed.run()
+                    summaries = [parse_summary(out.getvalue()[n_out:])]
+                    tuner = resumed
+                    sched, backend = resumed.scheduler, resumed.trial_backend
+                    store = [c for c in resumed.callbacks if hasattr(c, "store_sizes")][0]
+                    rec = [c for c in resumed.callbacks if hasattr(c, "statuses")][0]
+                except Exception as e:  # noqa: BLE001
+                    run_error, summaries = raised(e), []
+            else:
+                summaries = []
+            obs = collect_run(ctx, spec, tuner, sched, backend, store, rec, summaries, run_error, split=split)
+            if spec["resume"] == "moved":
+                shutil.rmtree(os.path.join(root, "other-root"), ignore_errors=True)
+            return obs
+    finally:
+        os.environ["SYNETUNE_FOLDER"] = root
 
 
 def run_cases(ctx, replay, corpus_only=False):
@@ -1327,12 +1411,22 @@ def run_cases(ctx, replay, corpus_only=False):
         specs = corpus_specs("run")
     else:
         specs = [gen_run_spec(rng, i) for i in range(ctx.n(60, 800))]
+        for i in range(ctx.n(24, 300)):  # runs that are interrupted, loaded back (Tuner.load) and continued
+            sp = gen_run_spec(rng, 10000 + i)
+            sp.update(resume=rng.choice(["same", "moved", "moved"]), more_results=rng.randint(2, 15),
+                      max_results=rng.randint(2, 10), rui=rng.choice([0, 10.0, 10.0, -1]))
+            specs.append(sp)
     terms, meta = [], []
     for i, spec in enumerate(specs):
         case = dict(kind="run", spec=spec)
-        obs = run_whole(ctx, spec)
+        obs = run_resumed(ctx, spec) if spec.get("resume") else run_whole(ctx, spec)
         shutil.rmtree(os.path.join(_TMP_ROOT, spec["name"]), ignore_errors=True)
         sched = spec["kind"]
+        split = obs.get("split")
+        if spec.get("resume"):
+            ctx.h("run_resume", "%s, rows before/after: %s" % (
+                spec["resume"], "both" if 0 < (split or 0) < len(obs["deliveries"]) else
+                "only before" if split else "only after" if obs["deliveries"] else "none"))
         resumed_changed = any(obs["deliveries"][a]["trial_id"] == obs["deliveries"][b]["trial_id"]
                               and obs["deliveries"][a]["config"] != obs["deliveries"][b]["config"]
                               for a in range(len(obs["deliveries"])) for b in range(a + 1, len(obs["deliveries"])))
@@ -1356,7 +1450,7 @@ def run_cases(ctx, replay, corpus_only=False):
                         obs["df"] if experiments_module(ctx) is not None else SKIP_DISK,
                         obs["handed"], obs["overall"], obs["per_trial"], spec["names"], spec["mode"], obs["bq"],
                         obs["tq"], obs["table"], obs["eqs"], sched=sched, summaries=obs["summaries"],
-                        run_error=obs["run_error"])
+                        run_error=obs["run_error"], boundaries=() if split is None else (split,))
         ctx.h("run_first_metric_never_numeric",
               bool(obs["handed"]) and not any(isinstance(plain(r.get(spec["names"][0])), numbers.Number)
                                               for _, r in obs["handed"]))
@@ -1368,7 +1462,8 @@ def run_cases(ctx, replay, corpus_only=False):
         terms.append(build_case(tb, True, obs["events"], obs["rows"], obs["history"], obs["overall"], obs["per_trial"],
                                 obs["backend_cfgs"], spec["names"], spec["mode"], obs["bq"], obs["tq"], obs["table"],
                                 obs["eqs"], summaries=obs["summaries"],
-                                disk_cols=None if obs["df"] is None else [str(c) for c in obs["df"].columns]))
+                                disk_cols=None if obs["df"] is None else [str(c) for c in obs["df"].columns],
+                                split=split))
         meta.append(case)
         if len(obs["rows"]) >= 3 and not getattr(ctx, "_c17_run_sampled", False):
             ctx._c17_run_sampled = True
@@ -1389,7 +1484,9 @@ def run(ctx, replay=None):
                 "STOP/PAUSE in the same batch handed but not delivered; results_update_interval in {-1,0,0.5,10}; "
                 "add_wallclock_time on/off; time stamp preset by the backend) fed to the real StoreResultsCallback and "
                 "TuningStatus; run cases: whole Tuner.run() with a harness-side in-memory backend and FIFO/Hyperband/"
-                "scripted schedulers, results.csv.zip read back with load_experiment. non-trivial = at least 2 "
+                "scripted schedulers, results.csv.zip read back with load_experiment; also runs with save_tuner that are "
+                "interrupted, loaded back with Tuner.load (same results root, or experiment directory copied to another "
+                "SYNETUNE_FOLDER) and continued with a larger budget. non-trivial = at least 2 "
                 "delivered results, 2 trials and a tie or a NaN/inf/non-numeric value (seq), or a run with >= 3 rows "
                 "and >= 2 trials (run); distinct by content hash")
     try:
